@@ -473,9 +473,11 @@ class cleanup_functools_wrapper(object):
         try:
             for attr in self.attrs:
                 try:
-                    value = getattr(self.func, attr)
+                    # what the object itself stores, not what attribute
+                    # lookup makes of it (a descriptor on a class, say)
+                    value = vars(self.func)[attr]
                     delattr(self.func, attr)
-                except AttributeError:
+                except (AttributeError, KeyError, TypeError):
                     pass
                 else:
                     self.saved_attrs[attr] = value
